@@ -166,9 +166,8 @@ def run (s : Sexp) : String :=
       | _ => ([], xs)
     match n.asNat?, parseL preS, parseL bodyS with
     | some n, some pre, some body =>
-      let hasQuery := (pre ++ body).any (fun op => match op with
-        | .x (.m (.mkq ..)) => true | .qstart .. => true | _ => false)
-      let trig := joinTrig [(hasQuery, "F-C20-1")]
+      -- F-C20-1 (expression table leak) is repaired: no open finding has a trigger here
+      let trig := joinTrig []
       s!"model={obs Quirks.asIs n pre body}\tspec={specObs}\ttrig={trig}"
     | _, _, _ => "error=bad-case"
   | _ => "error=bad-case"
